@@ -69,6 +69,7 @@ def main():
             if "EQUIVALENT" in pf:
                 continue
             items.append((pf, os.path.basename(pf).split("-")[0], None))
+    all_items = list(items)
     if a.only:
         items = [it for it in items if it[1] in a.only.split(",")]
     results = []
@@ -89,6 +90,8 @@ def main():
             old = {}
     for r in results:
         old[(r["property"], r["patch"])] = r
+    live = {(prop, label or os.path.basename(pf)) for pf, prop, label in all_items}
+    old = {k: v for k, v in old.items() if k in live}  # results of patches that no longer exist are dropped
     allr = sorted(old.values(), key=lambda r: (r["property"], r["patch"]))
     json.dump({"results": allr, "caught": sum(r["result"] == "CAUGHT" for r in allr), "total": len(allr)}, open(path, "w"), indent=1)
     bad = [r for r in results if r["result"] != "CAUGHT"]
